@@ -767,6 +767,8 @@ impl Stream for WriteStream {
         let (_, a) = parse_line(line);
         let calls: Vec<String> = a.get("calls").map(|c| c.split(';').map(|s| s.to_string()).collect()).unwrap_or_default();
         if calls.is_empty() { return f; }
+        // K-F: the writer's own fixed-size fields can spell a record signature where readers probe for one
+        if let Some(kf) = known_false_signature(&calls, &parse_srcs(&a)) { return vec![OracleFailure { what: kf }]; }
         if calls[0].starts_with("ap,") { return oracle_append(&calls, &parse_srcs(&a)); }
         if calls.iter().any(|c| c.starts_with("rc,")) { f.extend(oracle_rawcopy(&calls, &parse_srcs(&a))); }
         if calls[0] != "new" { return f; }
@@ -824,6 +826,40 @@ impl Stream for WriteStream {
     fn stats(&self) -> Vec<(String, u64)> {
         C02_STATS.lock().map(|m| m.iter().map(|(k, v)| (k.clone(), *v)).collect()).unwrap_or_default()
     }
+}
+
+/// K-F (known finding, format-inherent): after a successful `finish()` of an archive that needs no ZIP64 records,
+/// (i) an end-of-central-directory signature inside the end record's own fixed fields / comment (the backward
+/// search meets it before the real record when a comment follows), or (ii) the locator signature `PK\x06\x07` in
+/// the 4 bytes that lie 20 bytes in front of the end record (the tail of the last central record: external
+/// attributes + header offset), make readers - this crate, and any reader that probes the same places - take the
+/// archive for something else.  Neither names nor comments are involved: the values themselves spell the
+/// signature (e.g. 19280 entries = 0x4B50, Unix mode 0o45520 = 0x4B50 followed by a header offset of 0x0706).
+fn known_false_signature(calls: &[String], srcs: &[Vec<u8>]) -> Option<String> {
+    let ro = run_calls(calls, srcs);
+    if !ro.finished_ok { return None; }
+    let b = ro.fin.as_ref()?;
+    let end = ro.end_pos.map(|p| p as usize).unwrap_or(b.len()).min(b.len());
+    let clen = ro.comment.len();
+    if end < 22 + clen { return None; }
+    let eocd = end - 22 - clen;
+    if b[eocd..eocd + 4] != [0x50, 0x4b, 0x05, 0x06] { return None; }
+    let n = u16::from_le_bytes([b[eocd + 10], b[eocd + 11]]);
+    let (sz, off) = (u32::from_le_bytes([b[eocd + 12], b[eocd + 13], b[eocd + 14], b[eocd + 15]]), u32::from_le_bytes([b[eocd + 16], b[eocd + 17], b[eocd + 18], b[eocd + 19]]));
+    if n == 0xFFFF || sz == 0xFFFF_FFFF || off == 0xFFFF_FFFF { return None; }   // ZIP64 records are really there
+    // the comment itself must be innocent (names/comments embedding signatures are outside the properties)
+    if ro.comment.windows(4).any(|w| w == [0x50, 0x4b, 0x05, 0x06]) { return None; }
+    if clen > 0 {
+        for p in eocd + 1..=end - 22 {
+            if p + 4 <= end && b[p..p + 4] == [0x50, 0x4b, 0x05, 0x06] && p < eocd + 22 {
+                return Some(format!("K-F false-signature-in-fixed-fields: the end record's own fields spell an end-of-central-directory signature at offset +{} of the record and a comment follows, so the backward search stops there", p - eocd));
+            }
+        }
+    }
+    if eocd >= 20 && b[eocd - 20..eocd - 16] == [0x50, 0x4b, 0x06, 0x07] {
+        return Some("K-F false-signature-in-fixed-fields: the tail of the last central record (external attributes + header offset) spells the ZIP64 locator signature exactly where readers probe for a locator".to_string());
+    }
+    None
 }
 
 /// Was the i-th successfully created entry started with a password? (approximation used only to skip
